@@ -252,7 +252,8 @@ theorem affine_length : ∀ (b i s : Idx), i.length = b.length → s.length = b.
 
 theorem dot_affine : ∀ (b l s o : Idx), l.length = b.length → s.length = b.length → o.length = b.length →
     dot (affine b l s) o = dot b o + dot l (mulL s o)
-  | [], _, _, _, _, _, _ => by simp [affine]
+  | [], l, s, o, h1, h2, h3 => by
+    simp at h1 h2 h3; subst h1 h2 h3; simp [affine]
   | _ :: _, [], _, _, h, _, _ => by simp at h
   | _ :: _, _ :: _, [], _, _, h, _ => by simp at h
   | _ :: _, _ :: _, _ :: _, [], _, _, h => by simp at h
@@ -305,10 +306,18 @@ theorem dims_ne (g : Geo v) : v.dims ≠ [] := by
 
 end Geo
 
+/-- the metadata `View.root` builds -/
+def rootView (dims : Idx) (st : Int) : View :=
+  ⟨dims, dims, st, offsetsT dims, uniform dims.length 1, offsetsT dims⟩
+
+/-- the metadata `SliceInto` builds (on a view whose lists all have the view's rank) -/
+def sliceView (v : View) (loc dims : Idx) (step : Option Idx) : View :=
+  ⟨v.orig, dims, v.start + dot loc v.offStep, v.offset, mulL v.step (stepOr v.dims.length step),
+    mulL (mulL v.step (stepOr v.dims.length step)) v.offset⟩
+
 /-- closed form of `View.root` (never panics on a non-empty shape) -/
 theorem root_eq (dims : Idx) (st : Int) (hne : dims ≠ []) :
-    View.root dims st = .ok { orig := dims, dims := dims, start := st, offset := offsetsT dims,
-      step := uniform dims.length 1, offStep := offsetsT dims } := by
+    View.root dims st = .ok (rootView dims st) := by
   have h1 : offsets dims = .ok (offsetsT dims) := by
     cases dims with
     | nil => exact absurd rfl hne
@@ -318,7 +327,7 @@ theorem root_eq (dims : Idx) (st : Int) (hne : dims ≠ []) :
     have := mulL_ones_left (offsetsT dims)
     rw [offsetsT_length] at this
     rw [this]
-  simp [View.root, h1, h2, bind, Except.bind, pure, Except.pure]
+  simp [View.root, rootView, h1, h2, bind, Except.bind, pure, Except.pure]
 
 theorem sliceOK_zero_ones : ∀ (dims : Idx), Pos dims →
     SliceOK dims (uniform dims.length 0) dims (uniform dims.length 1)
@@ -339,7 +348,7 @@ theorem geo_root {dims : Idx} {v : View} (hne : dims ≠ []) (hpos : Pos dims) (
   rw [root_eq dims 0 hne] at h
   injection h with h
   subst h
-  refine ⟨hne, rfl, ?_, uniform dims.length 0, sliceOK_zero_ones dims hpos, by simp [dot_zeros]⟩
+  refine ⟨hne, rfl, ?_, uniform dims.length 0, sliceOK_zero_ones dims hpos, by simp [rootView, dot_zeros]⟩
   have := mulL_ones_left (offsetsT dims)
   rw [offsetsT_length] at this
   exact this.symm
@@ -348,11 +357,9 @@ theorem geo_root {dims : Idx} {v : View} (hne : dims ≠ []) (hpos : Pos dims) (
 rank, and composes start and steps affinely. -/
 theorem sliceInto_eq {v : View} (g : Geo v) (loc dims : Idx) (step : Option Idx)
     (hloc : loc.length = v.dims.length) (hstep : (stepOr v.dims.length step).length = v.dims.length) :
-    v.sliceInto loc dims step = .ok { orig := v.orig, dims := dims, start := v.start + dot loc v.offStep,
-      offset := v.offset, step := mulL v.step (stepOr v.dims.length step),
-      offStep := mulL (mulL v.step (stepOr v.dims.length step)) v.offset } := by
+    v.sliceInto loc dims step = .ok (sliceView v loc dims step) := by
   have h1 : dotProduct loc v.offStep = .ok (dot loc v.offStep) :=
-    dotProduct_ok _ _ (by rw [g.rank_offStep, hloc]; exact Nat.le_refl _)
+    dotProduct_ok _ _ (by rw [g.rank_offStep, hloc])
   cases step with
   | none =>
     have e : mulL v.step (stepOr v.dims.length none) = v.step := by
@@ -360,16 +367,15 @@ theorem sliceInto_eq {v : View} (g : Geo v) (loc dims : Idx) (step : Option Idx)
       rw [g.rank_step] at this
       exact this
     have h2 : multiply v.step v.offset = .ok (mulL v.step v.offset) :=
-      multiply_ok _ _ (by rw [g.rank_step, g.rank_offset]; exact Nat.le_refl _)
-    rw [e]
-    simp [View.sliceInto, h1, h2, bind, Except.bind, pure, Except.pure]
+      multiply_ok _ _ (by rw [g.rank_step, g.rank_offset])
+    simp [View.sliceInto, sliceView, e, h1, h2, bind, Except.bind, pure, Except.pure]
   | some s =>
     have hs : s.length = v.dims.length := hstep
     have h2 : multiply v.step s = .ok (mulL v.step s) :=
-      multiply_ok _ _ (by rw [g.rank_step, hs]; exact Nat.le_refl _)
+      multiply_ok _ _ (by rw [g.rank_step, hs])
     have h3 : multiply (mulL v.step s) v.offset = .ok (mulL (mulL v.step s) v.offset) :=
-      multiply_ok _ _ (by rw [mulL_length _ _ (by rw [g.rank_step, hs]), g.rank_step, g.rank_offset]; exact Nat.le_refl _)
-    simp [View.sliceInto, stepOr, h1, h2, h3, bind, Except.bind, pure, Except.pure]
+      multiply_ok _ _ (by rw [mulL_length _ _ (by rw [g.rank_step, hs]), g.rank_step, g.rank_offset])
+    simp [View.sliceInto, sliceView, stepOr, h1, h2, h3, bind, Except.bind, pure, Except.pure]
 
 /-- the invariant is preserved by an in-bounds slice -/
 theorem geo_slice {v w : View} {loc dims : Idx} {step : Option Idx} (g : Geo v)
@@ -404,11 +410,151 @@ theorem index_eq {v : View} (g : Geo v) (loc : Idx) (hloc : loc.length ≤ v.dim
     v.index loc = .ok (v.start + dot loc (mulL v.step v.offset)) := by
   have h1 : View.indexAux loc v.offStep = .ok (dot loc v.offStep) :=
     indexAux_ok _ _ (by rw [g.rank_offStep]; exact hloc)
-  simp [View.index, h1, g.offStep_eq, bind, Except.bind, pure, Except.pure]
+  unfold View.index
+  rw [h1, g.offStep_eq]
+  rfl
 
 /-- **G1 (no panic).** `Index` never panics on an index of the view's rank -/
 theorem index_ok {v : View} (h : Reach v) (loc : Idx) (hloc : loc.length = v.dims.length) :
     ∃ p, v.index loc = .ok p :=
   ⟨_, index_eq (reach_geo h) loc (by omega)⟩
+
+/-! ### mixed radix: `ravel` is a bijection between in-bounds multi-indices and `[0, Π dims)` -/
+
+theorem product_pos : ∀ {D : Idx}, Pos D → 0 < product D
+  | [], _ => by simp [product]
+  | d :: ds, h => by
+    have h1 : 1 ≤ d := h d (by simp)
+    have h2 : 0 < product ds := product_pos (fun x hx => h x (by simp [hx]))
+    simp only [product]
+    exact Int.mul_pos (by omega) h2
+
+theorem InBounds.pos {i D : Idx} (h : InBounds i D) : Pos D := by
+  have hI := h.toI; clear h
+  induction hI with
+  | nil => simp [Pos]
+  | cons h0 hlt _ _ ih =>
+    intro x hx
+    rcases List.mem_cons.mp hx with rfl | hx
+    · omega
+    · exact ih x hx
+
+theorem ravel_cons (i d : Int) (is ds : Idx) : ravel (i :: is) (d :: ds) = i * product ds + ravel is ds := rfl
+
+theorem ravel_bounds {i D : Idx} (h : InBounds i D) : 0 ≤ ravel i D ∧ ravel i D < product D := by
+  have hI := h.toI; clear h
+  induction hI with
+  | nil => simp [ravel, product]
+  | @cons i d is ds h0 hlt ok _ ih =>
+    have hp := product_pos ok.pos
+    simp only [ravel_cons, product]
+    have h1 : 0 ≤ i * product ds := Int.mul_nonneg h0 (by omega)
+    have h2 : i * product ds ≤ (d - 1) * product ds := Int.mul_le_mul_of_nonneg_right (by omega) (by omega)
+    have h3 : (d - 1) * product ds = d * product ds - product ds := by ring
+    omega
+
+theorem ravel_inj {i j D : Idx} (hi : InBounds i D) (hj : InBounds j D) (h : ravel i D = ravel j D) : i = j := by
+  have hI := hi.toI; clear hi
+  induction hI generalizing j with
+  | nil => cases j <;> simp_all [InBounds]
+  | @cons i d is ds h0 hlt ok _ ih =>
+    cases j with
+    | nil => simp [InBounds] at hj
+    | cons j0 js =>
+      simp only [InBounds_cons] at hj
+      obtain ⟨g0, glt, gok⟩ := hj
+      simp only [ravel_cons] at h
+      have b1 := ravel_bounds ok
+      have b2 := ravel_bounds gok
+      have e : i = j0 := by
+        rcases Int.lt_trichotomy i j0 with hlt' | heq | hgt
+        · have : (i + 1) * product ds ≤ j0 * product ds := Int.mul_le_mul_of_nonneg_right (by omega) (by omega)
+          have e2 : (i + 1) * product ds = i * product ds + product ds := by ring
+          omega
+        · exact heq
+        · have : (j0 + 1) * product ds ≤ i * product ds := Int.mul_le_mul_of_nonneg_right (by omega) (by omega)
+          have e2 : (j0 + 1) * product ds = j0 * product ds + product ds := by ring
+          omega
+      subst e
+      rw [ih gok (by omega)]
+
+theorem unravel_length : ∀ (k : Int) (D : Idx), (unravel k D).length = D.length
+  | _, [] => by simp [unravel]
+  | k, _ :: ds => by simp [unravel, unravel_length _ ds]
+
+theorem ravel_unravel_cons : ∀ (k d : Int) (ds : Idx), ravel (unravel k (d :: ds)) (d :: ds) = k
+  | k, d, [] => by simp [unravel, ravel, product]
+  | k, d, d2 :: ds => by
+    have ih := ravel_unravel_cons (k % product (d2 :: ds)) d2 ds
+    simp only [unravel, ravel_cons] at ih ⊢
+    rw [ih]
+    exact Int.ediv_mul_add_emod k _
+
+/-- `ravel ∘ unravel = id` on a non-empty shape (for every `k`, no bounds needed) -/
+theorem ravel_unravel (k : Int) (D : Idx) (hne : D ≠ []) : ravel (unravel k D) D = k := by
+  cases D with
+  | nil => exact absurd rfl hne
+  | cons d ds => exact ravel_unravel_cons k d ds
+
+theorem unravel_inBounds : ∀ (k : Int) (D : Idx), Pos D → 0 ≤ k → k < product D → InBounds (unravel k D) D
+  | _, [], _, _, _ => by simp [unravel]
+  | k, d :: ds, hpos, h0, hlt => by
+    have hp : 0 < product ds := product_pos (fun x hx => hpos x (by simp [hx]))
+    simp only [unravel, InBounds_cons]
+    refine ⟨Int.ediv_nonneg h0 (by omega), Int.ediv_lt_of_lt_mul hp (by simpa [product] using hlt), ?_⟩
+    exact unravel_inBounds _ ds (fun x hx => hpos x (by simp [hx])) (Int.emod_nonneg _ (by omega))
+      (Int.emod_lt_of_pos _ hp)
+
+theorem unravel_ravel {i D : Idx} (h : InBounds i D) (hne : D ≠ []) : unravel (ravel i D) D = i := by
+  have hb := ravel_bounds h
+  exact ravel_inj (unravel_inBounds _ D h.pos hb.1 hb.2) h (ravel_unravel _ D hne)
+
+/-! ### addresses of a `Geo` view in root coordinates -/
+
+/-- **G2/G3.** the address of `loc` in a `Geo` view is the row-major rank, in the allocated shape, of the
+root multi-index `b + loc ⊙ step` -/
+theorem index_ravel {v : View} (g : Geo v) :
+    ∃ b, SliceOK v.orig b v.dims v.step ∧ v.start = dot b v.offset ∧
+      ∀ loc : Idx, loc.length = v.dims.length → v.index loc = .ok (ravel (affine b loc v.step) v.orig) := by
+  obtain ⟨b, hb, hst⟩ := g.box
+  refine ⟨b, hb, hst, fun loc hloc => ?_⟩
+  have lb : b.length = v.dims.length := by rw [hb.lengths.1, g.rank_orig]
+  rw [index_eq g loc (by omega), hst,
+    ← dot_affine b loc v.step v.offset (by omega) (by rw [g.rank_step, lb]) (by rw [g.rank_offset, lb]),
+    g.offset_eq, dot_offsetsT_ravel _ _ (by
+      rw [affine_length b loc v.step (by omega) (by rw [g.rank_step, lb]), lb, g.rank_orig])]
+
+/-- **G3.** in-bounds indices of a `Geo` view are addressed inside `[0, Π OriginalDims)`; no panic -/
+theorem index_inbounds {v : View} (g : Geo v) {i : Idx} (hi : InBounds i v.dims) :
+    ∃ p, v.index i = .ok p ∧ 0 ≤ p ∧ p < product v.orig := by
+  obtain ⟨b, hb, _, hidx⟩ := index_ravel g
+  exact ⟨_, hidx i hi.length, ravel_bounds (hb.inBounds hi)⟩
+
+/-- **G3.** distinct in-bounds indices of a `Geo` view have distinct addresses -/
+theorem index_inj {v : View} (g : Geo v) {i j : Idx} (hi : InBounds i v.dims) (hj : InBounds j v.dims)
+    (h : v.index i = v.index j) : i = j := by
+  obtain ⟨b, hb, _, hidx⟩ := index_ravel g
+  rw [hidx i hi.length, hidx j hj.length] at h
+  injection h with h
+  exact hb.affine_inj hi.length hj.length (ravel_inj (hb.inBounds hi) (hb.inBounds hj) h)
+
+/-- **G3 (root).** for a root of shape `D` the address of `idx` is its row-major rank `ravel idx D` -/
+theorem root_index {dims : Idx} {v : View} (hne : dims ≠ []) (h : View.root dims = .ok v)
+    (idx : Idx) (hidx : idx.length = dims.length) : v.index idx = .ok (ravel idx dims) := by
+  rw [root_eq dims 0 hne] at h
+  injection h with h
+  subst h
+  have h1 : View.indexAux idx (offsetsT dims) = .ok (dot idx (offsetsT dims)) :=
+    indexAux_ok _ _ (by rw [offsetsT_length, hidx])
+  show View.index (rootView dims 0) idx = _
+  unfold View.index
+  simp only [rootView, h1, dot_offsetsT_ravel idx dims hidx, bind, Except.bind, pure, Except.pure, Int.zero_add]
+
+/-- **G3 (root, onto).** every `k ∈ [0, Π D)` is the address of exactly the in-bounds index `unravel k D` -/
+theorem root_index_unravel {dims : Idx} {v : View} (hne : dims ≠ []) (hpos : Pos dims)
+    (h : View.root dims = .ok v) (k : Int) (h0 : 0 ≤ k) (hlt : k < product dims) :
+    InBounds (unravel k dims) dims ∧ v.index (unravel k dims) = .ok k := by
+  refine ⟨unravel_inBounds k dims hpos h0 hlt, ?_⟩
+  rw [root_index hne h _ (unravel_length k dims), ravel_unravel k dims hne]
 
 end OW.Nd
